@@ -26,7 +26,7 @@ def run(fw):
     fw.assumptions += ['children per side: 0..2 (shape fixed per query); one attribute kind symbolic per query over {"", 2 letters} or a 4-value number set / enum',
                        'numbers are identical or >= 0.5 apart (the property exempts values within one ulp)',
                        'listed findings are excluded by harness defines (KNOWN_COUNT_ASYMMETRY, KNOWN_DUPLICATE_CHILDREN) and replayed separately',
-                       'outside: (2,x) shapes for variables/resets/units whose matching loop erases at a symbolic index (no verdict within budget), transitivity, depth > 1']
+                       'transitivity is asserted on triples with one child each; outside: (2,x) shapes for variables/resets/units whose matching loop erases at a symbolic index (no verdict within budget), depth > 1']
     fw.known_finding_lines()
     cnt = fw.kf_listed('C10-count-asymmetry')
     dup = fw.kf_listed('C10-duplicate-children')
@@ -38,20 +38,22 @@ def run(fw):
                 if kind == 1 and attr in (3, 4, 5) and (na == 2 or nb == 2) and fw.tier == 'quick':
                     continue
                 jobs.append((kind, na, nb, attr))
-    fw.extra_cov['shapes'] = len(jobs)
+    # transitivity on triples: one child per entity, every attribute kind
+    tjobs = [(kind, 1, 1, attr) for kind in KINDS for attr in ATTRS[kind]]
+    fw.extra_cov['shapes'] = len(jobs) + len(tjobs)
     wit = {(1, 1, 2, 1), (3, 2, 2, 1), (5, 2, 2, 3), (4, 1, 1, 6), (2, 1, 1, 2)}
 
-    def one(j):
+    def one(j, trans=False):
         kind, na, nb, attr = j
-        defs = ['VSTD_STR_CAP=23', 'VSTD_VEC_CAP=4', 'ALPHA=2', 'KIND=%d' % kind, 'NA=%d' % na, 'NB=%d' % nb, 'ATTR=%d' % attr]
+        defs = ['VSTD_STR_CAP=23', 'VSTD_VEC_CAP=4', 'ALPHA=2', 'KIND=%d' % kind, 'NA=%d' % na, 'NB=%d' % nb, 'ATTR=%d' % attr] + (['TRANS'] if trans else [])
         if cnt and kind in (1, 2, 4) and na != nb:
             defs.append('KNOWN_COUNT_ASYMMETRY=1')
         if dup and kind == 3:
             defs.append('KNOWN_DUPLICATE_CHILDREN')
-        name = 'e%d_%d%d_%d' % j
+        name = ('t' if trans else 'e') + '%d_%d%d_%d' % j
         m = fw.build_model(name, H, ['h_equals'], defines=defs)
         us = fw.unwindset(m, 'h_equals', vfw.std_rules(string=20 if (kind == 1 and attr == 5) else None))
-        lab = 'h_equals[%s %d vs %d, symbolic %s]' % (KINDS[kind], na, nb, ATTR_NAMES[kind][attr])
+        lab = 'h_equals[%s %d vs %d%s, symbolic %s]' % (KINDS[kind], na, nb, ' vs %d (transitivity)' % nb if trans else '', ATTR_NAMES[kind][attr])
         # shapes that only the thorough tier adds sit at the edge of feasibility (two children on a side whose matching loop
         # erases at a symbolic index): no verdict there is recorded as inconclusive, not as a failure of the check
         edge = (na, nb) not in shapes(kind, 'quick') or (kind == 1 and attr in (3, 4, 5) and (na == 2 or nb == 2))
@@ -59,10 +61,10 @@ def run(fw):
         if r['status'] != 'SUCCESS':
             fw.log(lab, r['status'], [(f['msg'], f['inputs']) for f in r['failed']][:3])
         fw.handle(r, H, defs, best_effort=edge)
-        if j in wit:
+        if j in wit and not trans:
             mw = fw.build_model(name + 'w', H, ['h_equals'], defines=defs + ['WITNESS'])
             fw.witness(mw, 'h_equals', unwind=6, unwindset=us, timeout=600, label='witness:' + lab)
             fw.differential(m, 'h_equals', H, seeds=12, defines=defs)
             shutil.rmtree(mw.dir, ignore_errors=True)
         shutil.rmtree(m.dir, ignore_errors=True)
-    vfw.pmap(one, jobs, 14)
+    vfw.pmap(lambda x: one(x[0], x[1]), [(j, False) for j in jobs] + [(j, True) for j in tjobs], 14)
